@@ -11,7 +11,7 @@ import (
 )
 
 // EditAlphabet is the token alphabet of S5 (single-edit neighbourhood).
-var EditAlphabet = append([]string{"(", ")", "[", "]", ",", ";", ".", "*", "AS", "FROM", "SELECT", "WHERE", "END", "THEN", "a", "1", "<", ">", ">>"}, spaces.Malformed...)
+var EditAlphabet = append([]string{"(", ")", "[", "]", ",", ";", ".", "*", "AS", "FROM", "SELECT", "WHERE", "END", "THEN", "a", "1", "<", ">", ">>", "\r"}, spaces.Malformed...)
 
 // editSpace is S5: for every sentence of G with at most seedDev deviations, every
 // token deletion, adjacent swap, truncation, replacement and insertion with each
@@ -21,10 +21,30 @@ func editSpace(r *explore.Run, seedBase int, body func(c *explore.Ctx, e *Entry,
 	if r.Tier == "thorough" {
 		k++
 	}
-	roots := grammar.Roots
 	A := EditAlphabet
-	r.Explore(explore.Options{Space: "S5/edits", MaxDev: k, SplitLen: 3,
-		Bound: fmt.Sprintf("every sentence of G with <=%d deviations x every single edit (delete, swap, truncate, replace/insert each of %d edit tokens at every position, comment-glue, no-gap)", k, len(A))},
+	// roots that stay small get one more deviation for their seeds
+	bounds := rootBounds(k, 400)
+	for extra := 0; extra <= 1; extra++ {
+		var roots []*grammar.Root
+		for _, root := range grammar.Roots {
+			b := bounds[root.Name]
+			if b > k+1 {
+				b = k + 1
+			}
+			if b == k+extra {
+				roots = append(roots, root)
+			}
+		}
+		if len(roots) == 0 {
+			continue
+		}
+		editSpaceRoots(r, fmt.Sprintf("S5/edits(seeds<=%d)", k+extra), k+extra, roots, A, body)
+	}
+}
+
+func editSpaceRoots(r *explore.Run, space string, k int, roots []*grammar.Root, A []string, body func(c *explore.Ctx, e *Entry, s string)) {
+	r.Explore(explore.Options{Space: space, MaxDev: k, SplitLen: 3,
+		Bound: fmt.Sprintf("every sentence of %d roots of G with <=%d deviations x every single edit (delete, swap, block swap, truncate, back-quote, replace/insert each of %d edit tokens at every position, comment-glue, no-gap)", len(roots), k, len(A))},
 		func(c *explore.Ctx) {
 			root := roots[c.ChooseFree(len(roots))]
 			s := grammar.Derive(c, root)
@@ -36,7 +56,7 @@ func editSpace(r *explore.Run, seedBase int, body func(c *explore.Ctx, e *Entry,
 			if n == 0 {
 				return
 			}
-			kind := c.ChooseFree(7)
+			kind := c.ChooseFree(9)
 			var text string
 			join := func(t []string) string { return strings.Join(t, " ") }
 			switch kind {
@@ -62,6 +82,30 @@ func editSpace(r *explore.Run, seedBase int, body func(c *explore.Ctx, e *Entry,
 			case 4: // insert before position i
 				i := c.ChooseFree(n + 1)
 				t := append(append(append([]string{}, toks[:i]...), A[c.ChooseFree(len(A))]), toks[i:]...)
+				text = join(t)
+			case 7: // swap two adjacent blocks of 1..4 tokens (clause reordering)
+				if n < 3 {
+					return
+				}
+				i := c.ChooseFree(n - 1)
+				l1 := 1 + c.ChooseFree(4)
+				l2 := 1 + c.ChooseFree(4)
+				if l1 == 1 && l2 == 1 || i+l1+l2 > n {
+					return
+				}
+				t := append([]string{}, toks[:i]...)
+				t = append(t, toks[i+l1:i+l1+l2]...)
+				t = append(t, toks[i:i+l1]...)
+				t = append(t, toks[i+l1+l2:]...)
+				text = join(t)
+			case 8: // write an identifier-shaped token as a quoted identifier
+				i := c.ChooseFree(n)
+				w := toks[i]
+				if w == "" || !(w[0] == '_' || w[0] >= 'a' && w[0] <= 'z' || w[0] >= 'A' && w[0] <= 'Z') {
+					return
+				}
+				t := append([]string{}, toks...)
+				t[i] = "`" + w + "`"
 				text = join(t)
 			case 5, 6: // gap i becomes a comment / disappears
 				if n < 2 {
